@@ -49,6 +49,7 @@ namespace glm
 		T magnitude = sqrt(x.x * x.x + x.y * x.y + x.z * x.z + x.w *x.w);
 
 		T Angle;
+		T SinAngle;
 		if(abs(x.w / magnitude) > cos_one_over_two<T>())
 		{
 			//Scalar component is close to 1; using it to recover angle would lose precision
@@ -65,16 +66,21 @@ namespace glm
 				return qua<T, Q>::wxyz(pow(x.w, y), 0, 0, 0);
 			}
 
-			Angle = asin(sqrt(VectorMagnitude) / magnitude);
+			SinAngle = sqrt(VectorMagnitude) / magnitude;
+			Angle = asin(SinAngle);
+			//Scalar component close to -1: the angle of x is in the second quadrant
+			if(x.w < static_cast<T>(0))
+				Angle = pi<T>() - Angle;
 		}
 		else
 		{
 			//Scalar component is small, shouldn't cause loss of precision
 			Angle = acos(x.w / magnitude);
+			SinAngle = sin(Angle);
 		}
 
 		T NewAngle = Angle * y;
-		T Div = sin(NewAngle) / sin(Angle);
+		T Div = sin(NewAngle) / SinAngle;
 		T Mag = pow(magnitude, y - static_cast<T>(1));
 		return qua<T, Q>::wxyz(cos(NewAngle) * magnitude * Mag, x.x * Div * Mag, x.y * Div * Mag, x.z * Div * Mag);
 	}
